@@ -4,6 +4,7 @@ import (
 	"fmt"
 	"go/constant"
 	"go/types"
+	"strings"
 
 	"golang.org/x/tools/go/ssa"
 
@@ -19,6 +20,7 @@ func init() {
 			"R2 (slice): where a VMEndorsementMap_Entry is built, Path and the written file path share one basename origin (the gate's result) and Digest derives from sha512.Sum384 of Context.Image. " +
 			"R3 (ESP): the manifest write (file path derived from endorse.ManifestFile) happens only after an endorsement write succeeded; the marshalled map is the object the manifest was parsed into. " +
 			"R4 (CFG): in the function that merges the new entry into the manifest list, no call that drops entries keyed by the new entry's digest or path is reachable after that digest/path was placed in the list (the fresh entry would be dropped with the stale one). " +
+			"R3c the manifest bytes handed to the workspace are prototext.Marshal's output with constant framing only (append / conversion / slicing); no other function is applied to them. " +
 			"R5 every in-repo implementation of ChangeOps.WriteOrCreateFiles replaces a file's contents wholly (os.WriteFile / os.Create, or os.OpenFile with O_TRUNC and without O_APPEND), so a rewritten manifest or endorsement that got shorter keeps no stale tail. " +
 			"Not covered: the four-way merge preserving path/digest uniqueness over histories (a relational invariant over list contents), that the manifest parses back.",
 		Assumptions: []string{"go/types, go/ssa, VTA call graph", "ChangeOps.ReadFile / IsNotFound faithfully report existence"},
@@ -425,6 +427,137 @@ func runC13(c *Ctx) {
 		}
 	}
 	c.S.Floor("R4", "manifest merge functions in package endorse", 1, nMerge)
+
+	// ---- R3c: the manifest bytes written are the marshaller's output, only framed ----
+	// Between prototext.Marshal of the manifest map and the File.Contents that is written, the bytes may be
+	// prefixed / suffixed with constants (append, conversion, slicing) and nothing else: any other function applied
+	// to them (whitespace normalisation, replacement, re-encoding) rewrites quoted digests and paths too.
+	{
+		isManifestMarshal := func(v ssa.Value) bool {
+			ex, ok := v.(*ssa.Extract)
+			if !ok || ex.Index != 0 {
+				return false
+			}
+			call, ok := ex.Tuple.(*ssa.Call)
+			if !ok {
+				return false
+			}
+			cal := call.Call.StaticCallee()
+			return cal != nil && cal.Name() == "Marshal" && cal.Pkg != nil && strings.HasSuffix(cal.Pkg.Pkg.Path(), "encoding/prototext") &&
+				len(call.Call.Args) > 0 && typeMentions(call.Call.Args[len(call.Call.Args)-1], repoPath("proto/releases"), "VMEndorsementMap")
+		}
+		nW := 0
+		for _, f := range c.P.RepoFunctions() {
+			if load.RelPkg(f) != "endorse" || c.isTestFunc(f) {
+				continue
+			}
+			for _, b := range f.Blocks {
+				for _, in := range b.Instrs {
+					st, ok := in.(*ssa.Store)
+					if !ok {
+						continue
+					}
+					fa, ok := st.Addr.(*ssa.FieldAddr)
+					if !ok || !flow.IsFieldLoad(fa, endorsePkg, "File", "Contents") {
+						continue
+					}
+					sawMarshal := false
+					var offender *ssa.Call
+					seen := map[ssa.Value]bool{}
+					var walk func(v ssa.Value, d int, via *ssa.Call)
+					walk = func(v ssa.Value, d int, via *ssa.Call) {
+						if v == nil || seen[v] || d > 14 || offender != nil {
+							return
+						}
+						seen[v] = true
+						if isManifestMarshal(v) {
+							sawMarshal = true
+							if via != nil {
+								offender = via
+							}
+							return
+						}
+						switch x := v.(type) {
+						case *ssa.Const, *ssa.Global, *ssa.FreeVar:
+						case *ssa.Parameter:
+							// contents handed to a writing helper: look at what its callers pass
+							fn := x.Parent()
+							idx := -1
+							for i, q := range fn.Params {
+								if q == x {
+									idx = i
+								}
+							}
+							if n := c.P.CallGraph().Nodes[fn]; n != nil && idx >= 0 {
+								for _, e := range n.In {
+									if e.Site == nil || e.Site.Common().IsInvoke() || e.Site.Common().StaticCallee() != fn || idx >= len(e.Site.Common().Args) {
+										continue
+									}
+									walk(e.Site.Common().Args[idx], d+1, via)
+								}
+							}
+						case *ssa.Convert:
+							walk(x.X, d+1, via)
+						case *ssa.ChangeType:
+							walk(x.X, d+1, via)
+						case *ssa.Slice:
+							walk(x.X, d+1, via)
+						case *ssa.Phi:
+							for _, e := range x.Edges {
+								walk(e, d+1, via)
+							}
+						case *ssa.Alloc:
+							// the array behind a variadic argument / a local buffer: what is stored into it
+							for _, ref := range *x.Referrers() {
+								switch r := ref.(type) {
+								case *ssa.Store:
+									if r.Addr == ssa.Value(x) {
+										walk(r.Val, d+1, via)
+									}
+								case *ssa.IndexAddr:
+									for _, r2 := range *r.Referrers() {
+										if s2, ok := r2.(*ssa.Store); ok && s2.Addr == ssa.Value(r) {
+											walk(s2.Val, d+1, via)
+										}
+									}
+								}
+							}
+						case *ssa.UnOp:
+							walk(x.X, d+1, via)
+						case *ssa.Extract:
+							walk(x.Tuple, d+1, via)
+						case *ssa.Call:
+							if bi, ok := x.Call.Value.(*ssa.Builtin); ok && bi.Name() == "append" {
+								for _, a := range x.Call.Args {
+									walk(a, d+1, via)
+								}
+								return
+							}
+							// any other call: a finding if the marshalled bytes flow into it (outermost such call is named)
+							nv := via
+							if nv == nil {
+								nv = x
+							}
+							for _, a := range x.Call.Args {
+								walk(a, d+1, nv)
+							}
+						}
+					}
+					walk(st.Val, 0, nil)
+					if !sawMarshal && offender == nil {
+						continue // not the manifest file
+					}
+					nW++
+					det := ""
+					if offender != nil {
+						det = "the marshalled manifest passes through " + callName(offender) + " before it is written: a transformation of the text also rewrites the quoted digests and paths inside it, so an entry may no longer name its file or carry its digest"
+					}
+					c.S.Check(offender == nil, "R3c", load.FuncName(f)+":manifest bytes", c.pos(st.Pos()), "the bytes written are prototext.Marshal's output framed by constants", det)
+				}
+			}
+		}
+		c.S.Floor("R3c", "manifest contents stores in package endorse", 1, nW)
+	}
 
 	// ---- R5: workspace back ends replace files wholly ----
 	// Every in-repo implementation of ChangeOps.WriteOrCreateFiles writes a file by replacing its contents: the
